@@ -121,6 +121,17 @@ func scenarios(tier string) []*Scenario {
 			out = append(out, sc)
 		}
 	}
+	// ---- family O: A and G again with a chain older than 24 h (the service never calls itself current)
+	for _, base := range append([]*Scenario{}, out...) {
+		fam := base.Name[:2]
+		if fam != "A/" && fam != "G/" {
+			continue
+		}
+		sc := *base
+		sc.OldChain = true
+		sc.Name = "O" + base.Name
+		out = append(out, &sc)
+	}
 	// ---- experimental engine, one outbound peer, database with a fork already stored -----------------
 	for _, initial := range [][]int{{1, 2, 3, 4}, {1, 2, 5}} {
 		sc := &Scenario{Engine: "experimental", Blocks: tree(4, 2, 3), Initial: initial}
